@@ -32,7 +32,7 @@ def run(chk):
         names = [n for n in names if any(o in n for o in chk.only)]
     else:
         names = [n for n in names if not n.endswith("_x")]
-    tmo = 1200 if chk.tier == "quick" else 3000
+    tmo = 1200 if chk.tier == "quick" else 2400
     sl = crate.slices.get("mapping_kernel", {})
     specs = [dict(name="h::c17::" + n, timeout=tmo, mem_gb=20 if chk.tier == "quick" else 30, info=dict(
         functions_encoded="%s slice: KeyLocation, locate, get, try_put_located, put_located, put, try_put (sha256 %s, %s lines)" % (
